@@ -5,6 +5,10 @@ import (
 	"sort"
 	"strings"
 
+	"time"
+
+	"github.com/zitadel/oidc/v3/pkg/oidc"
+
 	"verifharness/drv"
 	"verifharness/emit"
 	"verifharness/opfix"
@@ -35,7 +39,15 @@ type Profile struct {
 	WarmPct      int // % of flows with a wrong-credential attempt right after another client's successful authentication
 	OverlapPct   int // % of flows with a token request that is in flight while another one runs
 	AudPct       int // % of histories whose storage grants an audience other than the client alone
+	PostPct      int // % of flows whose authorization request is POSTed, parameters split between URL query and body
+	ZeroAuthPct  int // % of flows for which the storage records no authentication time
+	GrantsPct    int // % of histories with a client registered with an empty / nil / partial grant list
 }
+
+var pauses int
+
+var authorizeParams = []string{"code_challenge", "code_challenge_method", "nonce", "scope", "redirect_uri", "state", "client_id",
+	"response_type", "request", "prompt", "id_token_hint", "max_age"}
 
 // warmAttack: a client x whose successful authentication precedes the attempt (its credential for
 // the warm-up request), and a credential that does not prove c but is RELATED to what x presented:
@@ -226,6 +238,9 @@ type flow struct {
 	roChal      string
 	roMethod    string
 	overlapCode bool
+	post        bool
+	inQuery     []string
+	zeroAuth    bool
 	held        int // twin flows: the code of the first authorization request, kept for later
 	long        bool
 }
@@ -530,6 +545,25 @@ func (g *gen) newFlow(routerMode int) *flow {
 		}
 	}
 	g.requestObject(f)
+	if g.r.Chance(g.p.PostPct, 100) {
+		f.post = true
+		for _, k := range authorizeParams {
+			if g.r.Chance(1, 3) {
+				f.inQuery = append(f.inQuery, k)
+			}
+		}
+		if g.r.Bool() { // the PKCE pair in the URL, as an auth-URL builder with PKCE options leaves it
+			f.inQuery = append(f.inQuery, "code_challenge", "code_challenge_method")
+		}
+		g.tag("authorize=post")
+		if len(f.inQuery) > 0 {
+			g.tag("authorize=post-split")
+		}
+	}
+	f.zeroAuth = g.r.Chance(g.p.ZeroAuthPct, 100)
+	if f.zeroAuth {
+		g.tag("auth_time=not-recorded")
+	}
 	f.sub = drv.Pick(g.r, []string{"alice", "bob"})
 	if g.r.Chance(1, 10) { // a subject with the separator of the opaque access token in it
 		f.sub = "team:carol"
@@ -617,7 +651,7 @@ func (g *gen) newFlow(routerMode int) *flow {
 		plan = append(plan, "code-overlap")
 		f.overlapCode = true
 	}
-	if f.ro == "ok" && f.method != "" && g.r.Chance(3, 4) {
+	if (f.ro == "ok" || (f.post && len(f.inQuery) > 0)) && f.method != "" && g.r.Chance(3, 4) {
 		plan = append(plan, "code-pkce") // the PKCE parameters travelled (partly) in the Request Object: they are in force
 	}
 	if g.r.Chance(g.p.FaultPct, 100) {
@@ -699,7 +733,7 @@ func (g *gen) newFlow(routerMode int) *flow {
 	}
 	if g.r.Chance(g.p.DropPct, 100) {
 		// the registration loses the refresh grant while the client may hold a refresh token
-		tail := []string{"drop-refresh", "refresh-dropped", "refresh-dropped"}
+		tail := []string{drv.Pick(g.r, []string{"drop-refresh", "drop-grants"}), "refresh-dropped", "refresh-dropped"}
 		cut := len(plan) - g.r.IntN(nref+1)
 		plan = append(append(append([]string{}, plan[:cut]...), tail...), plan[cut:]...)
 	}
@@ -833,7 +867,7 @@ func (g *gen) step(f *flow) {
 	switch kind {
 	case "authorize":
 		out := g.do(Op{Router: g.rt(f), Kind: "authorize", Client: f.cl.ID, URI: f.qURI, Scopes: f.qScopes, Nonce: f.qNonce, Method: f.qMethod, Chal: f.qChal,
-			NoMethod: f.noMethod, RO: f.ro, ROURI: f.roURI, ROScopes: f.roScopes, RONonce: f.roNonce, ROChal: f.roChal, ROMethod: f.roMethod,
+			NoMethod: f.noMethod, Post: f.post, InQuery: f.inQuery, RO: f.ro, ROURI: f.roURI, ROScopes: f.roScopes, RONonce: f.roNonce, ROChal: f.roChal, ROMethod: f.roMethod,
 			Hint: f.hint, HintSub: f.hintSub, Prompt: f.prompt, MaxAge: f.maxAge})
 		f.req = out.Req
 	case "bad-authorize": // no request must come out of these
@@ -857,7 +891,11 @@ func (g *gen) step(f *flow) {
 		if req == 0 {
 			req = UnknownBase + g.r.IntN(20)
 		}
-		g.do(Op{Kind: "login", Router: g.rt(f), Req: req, Sub: sub, Stamp: g.stamp})
+		stamp := g.stamp
+		if f.zeroAuth && kind == "login" {
+			stamp = 0
+		}
+		g.do(Op{Kind: "login", Router: g.rt(f), Req: req, Sub: sub, Stamp: stamp})
 	case "callback":
 		req := f.req
 		if req == 0 {
@@ -981,6 +1019,8 @@ func (g *gen) step(f *flow) {
 		}
 		o.Mut = "storage-fault"
 		g.settle(f, o, g.do(o))
+	case "drop-grants":
+		g.do(Op{Kind: "dropgrants", Router: g.rt(f), Client: f.cl.ID, Mut: "all-grants-withdrawn"})
 	case "drop-refresh":
 		g.do(Op{Kind: "droprefresh", Router: g.rt(f), Client: f.cl.ID, Mut: "refresh-grant-withdrawn"})
 	case "refresh-dropped":
@@ -1129,6 +1169,11 @@ func (g *gen) step(f *flow) {
 		if last(f.rts) == 0 && !g.r.Chance(1, 5) {
 			return // nothing to refresh (no offline_access, or the exchange failed)
 		}
+		if f.zeroAuth && last(f.rts) != 0 && pauses < 2 {
+			// twice per run: this refresh happens at a later second than the exchange before it
+			pauses++
+			time.Sleep(1100 * time.Millisecond)
+		}
 		o := g.honestRefresh(f)
 		g.settle(f, o, g.do(o))
 	case "refresh-foreign":
@@ -1265,6 +1310,11 @@ func Generate(r drv.Rand, p Profile) (*History, error) {
 	if r.Chance(1, 12) {
 		o.DropCode = drv.Pick(r, ids)
 	}
+	if r.Chance(p.GrantsPct, 100) {
+		id := drv.Pick(r, []string{"web", "web2", "native", "spa", "pkjwt", "web22", "pkjwt2", "web 3"})
+		o.Grants = map[string][]oidc.GrantType{id: drv.Pick(r, [][]oidc.GrantType{nil, nil, {}, {oidc.GrantTypeRefreshToken},
+			{oidc.GrantTypeCode}, {oidc.GrantTypeClientCredentials}, {oidc.GrantTypeImplicit, oidc.GrantTypeBearer}})}
+	}
 	w, err := NewWorld(o)
 	if err != nil {
 		return nil, err
@@ -1290,6 +1340,10 @@ func Generate(r drv.Rand, p Profile) (*History, error) {
 	}
 	if o.ReplaceUI {
 		g.tag("userinfo=replace-struct")
+	}
+	for id, gs := range o.Grants {
+		g.tag("grant_list=" + strings.ReplaceAll(id, " ", "_"))
+		g.tag(fmt.Sprintf("grant_list_len=%d", len(gs)))
 	}
 	if o.Aud != nil {
 		g.tag(fmt.Sprintf("grant_audience=%d", len(o.Aud)))
